@@ -178,6 +178,26 @@ pub fn featdigest(tier: Tier, seed: u64) {
         );
         fcases += res.iter().sum::<u64>();
     }
+    // deep diagrams (8 and 11 variables) and re-imported stores under this feature set
+    let (res, _) = run.par_for(
+        "deep",
+        4096,
+        || 0u64,
+        |st, k| {
+            *st += 1;
+            let (n, idx) = if k % 2 == 0 { (8usize, (k / 2) * 8 + seed % 8) } else { (11usize, (k / 2) * 512 + seed % 512) };
+            for (kind, msg) in crate::c06_07::deep_case(n, idx) {
+                run.violation(&format!("C07:{}", kind), format!("{} (chain #{} over {} variables)", msg, idx, n), json!({"inner_property": "C07", "inner_case": {"type": "deep", "vars": n, "index": idx}}));
+            }
+            if k < 256 {
+                for (kind, msg) in crate::c06_07::reimport_restrict_case(k as TT, 3, 5) {
+                    run.violation(&format!("C07:{}", kind), format!("{} (function {:#x})", msg, k), json!({"inner_property": "C07", "inner_case": {"type": "reimport-restrict", "tt": k, "vars": 3, "writer": 5}}));
+                }
+            }
+        },
+        &|k| json!({"type": "deep", "index": k}),
+    );
+    fcases += res.iter().sum::<u64>();
     println!("FD-DIGEST function-cases {}", fcases);
     // S3: store exploration with every invariant
     let flags = Flags { canonical: true, functions: true, memo: true, queries: true };
